@@ -32,6 +32,7 @@ struct Exp {                       // one expected delivery
   bool last = false;               // a reply: must arrive after every `pre` item of its group
   bool pre = false;                // a signal addressed to the requester: must precede its reply
   bool optional = false;           // documents allow it to be present or absent
+  int order_key = 0;               // > 0: items of one group with keys must arrive in increasing key order (held messages, C19)
   std::string what;                // for reports
   std::string finding;             // non-empty: this item exists only because of a listed known finding; matching it counts a hit
   std::string prop;                // property whose statement this expectation comes from (C03, C04, ...)
@@ -53,6 +54,7 @@ struct Conn {
   bool expect_closed = false;      // model says the bus must have closed / will close it
   std::string close_prop = "C18";  // property that demands it
   bool monitor = false;
+  bool closing = false;            // the client has closed its socket; the bus may or may not have noticed yet
   bool unchecked = false;          // its own incoming stream is no longer predicted (documents silent)
   unsigned uid = 0, pid = 0;
   std::vector<unsigned> gids;
@@ -101,6 +103,15 @@ class Model {
   mutable std::map<std::string, uint64_t> finding_hits; // how often each listed finding was observed in this run
   std::vector<Choice> open_choices;                     // to be resolved by the harness right after the event
   std::set<std::string> activatable;                    // names with a service file (C19)
+  // C19: a pending activation: who waits, in arrival order
+  struct Waiter { int c; wire::Msg m; bool start_call; /* StartServiceByName (answered by the bus) vs a held message (delivered to the service) */ };
+  struct Activation { std::vector<Waiter> waiters; int64_t started_us = 0; };
+  std::map<std::string, Activation> activations;        // name -> pending activation
+  uint64_t activation_starts = 0;                       // how many times a service program had to be started
+  int64_t service_start_timeout_ms = 25000;
+  int hold_order_key = 0;                               // set while held messages are being released (orders them for the recipient)
+  void activation_failed(const std::string &name, const char *why);    // the started process failed / exited / timed out: every waiter gets one error
+  std::vector<std::string> overdue_activations() const;
 
   // policy plug-in points (default: allow).  See model/policy.h for the real evaluator.
   std::function<bool(int sender, const wire::Msg &m, int recipient /* -1 = bus */, int addressed, bool requested_reply)> can_send;
@@ -145,6 +156,8 @@ class Model {
   void driver(int c, const wire::Msg &m);
   void become_monitor(int c, const wire::Msg &m);
   void doom_rules_naming(int c);
+  void activation_join(const std::string &name, int c, const wire::Msg &m, bool start_call);
+  void activation_complete(const std::string &name, int owner);
   void reply_ok(int c, const wire::Msg &call, std::vector<wire::Value> body, bool name_set = false);
   void reply_err(int c, const wire::Msg &call, const std::string &name, std::vector<std::string> any_of = {});
   void name_owner_changed(const std::string &name, const std::string &old_o, const std::string &new_o);
